@@ -360,6 +360,7 @@ var c02Tokens = []string{
 	"@.a", "$.a", "@.a==1", "[(1)]", "=", "&", "|", "~", "\\'", "\\\\", "u0041", "\\u0041", "9223372036854775807", "9223372036854775808", "-9223372036854775808",
 	// \uXXXX escapes with every hex digit in both cases (the recogniser's hexDigit rule), also surrogate pairs and lone surrogates
 	"['\\u00ff']", "[\"\\u000f\"]", "['\\uABCD']", "['\\uabcd']", "['\\uEF01']", "['\\uef23']", "[\"\\ud83d\\ude00\"]", "['\\uD83D\\uDE00']",
+	"[(@.length-1)]", "[(@.length - 2)]", "[(@.length)]", "[( @.length-1 )]", "(@.length-1)", "[(@.a)]", "[(1+1)]",
 	"['\\ufffd']", "['\\ud800']", "\\u00e9", "\\u4567", "\\u89aB", "\\uCdEf", "['a\\u0062c']", "[\"\\u0022\"]", "['\\u0027']",
 }
 
